@@ -293,4 +293,79 @@ theorem gr_fast_floor_eq (r : RNSTool) (p d : RnsPoly)
     congr 1
     simp [List.map_map, Function.comp_def]
 
+/-! ### END TO END: generated `sm_mrq` with `smMrq_spec` / `smMrq_scalar` (left open in phase 4c: needs the shape of the model's output) -/
+
+theorem gr_bind_ok_shape {F : Nat → R (List Nat)} {sB n : Nat} {out : RnsPoly} (hF : ∀ i y, F i = .ok y → y.length = n)
+    (h : ((List.range' 0 sB).mapM F >>= fun outs => .ok (outs.map List.toArray).toArray) = .ok out) :
+    out.size = sB ∧ ∀ i, i < sB → (out.getD i #[]).size = n := by
+  cases hm : (List.range' 0 sB).mapM F with
+  | error e => rw [hm] at h; cases h
+  | ok outs =>
+    rw [hm, gr_ok_bind] at h
+    cases h
+    have hl : outs.length = sB := by rw [gr_mapM_length _ _ _ hm, List.length_range']
+    have hall : ∀ y ∈ outs, y.length = n := by
+      intro y hy
+      obtain ⟨x, _, hx⟩ := gr_mapM_forall' F (fun _ y => y.length = n) _ (fun i _ y hy' => hF i y hy') outs hm y hy
+      exact hx
+    refine ⟨by simp [hl], fun i hi => ?_⟩
+    have hi' : i < outs.length := by omega
+    have := hall outs[i] (List.getElem_mem hi')
+    simp [Array.getD, hi', this]
+
+theorem gr_sm_shape {r : RNSTool} {p out : RnsPoly} (h : r.smMrq p = .ok out) (hn : (p.getD r.baseBsk.size #[]).size = r.n) :
+    out.size = r.baseBsk.size ∧ ∀ i, i < r.baseBsk.size → (out.getD i #[]).size = r.n := by
+  rw [gr_sm_model] at h
+  refine gr_bind_ok_shape (fun i y hy => ?_) h
+  unfold gr_smComp at hy
+  cases hpq : MulOperand.new (r.prodQModBsk.getD i 0) (r.baseBsk.q i) with
+  | error e => rw [hpq] at hy; cases hy
+  | ok pq =>
+    rw [hpq, gr_ok_bind] at hy
+    rw [gr_mapM_length _ _ _ hy, List.length_range', List.length_map, Array.length_toList, hn]
+
+/-- **END TO END (BEHZ small Montgomery reduction)**: the function generated from the Rust source of `RNSTool::sm_mrq`, run on the flat buffer of a polynomial
+    whose coefficient `j` holds residues of an integer `Y j` modulo every `b_i ∈ Bsk` and modulo m̃, writes at position `i·n + j` of ANY destination buffer
+    `((Y_j + q·r_j)/m̃) mod b_i`, where `r_j ∈ [−m̃/2, m̃/2)` is the centred representative of `−Y_j·q⁻¹ mod m̃` and `m̃ ∣ Y_j + q·r_j`
+    (composition of `gr_sm_mrq_eq` with the C10 theorems `smMrq_spec` and `smMrq_scalar`) -/
+theorem gr_sm_mrq_montgomery (r : RNSTool) (p d : RnsPoly) (Y : Nat → Int) (q : Nat)
+    (hp1 : p.size = r.baseBsk.size + 1) (hp2 : ∀ i, i < r.baseBsk.size + 1 → (p.getD i #[]).size = r.n)
+    (hd1 : d.size = r.baseBsk.size) (hd2 : ∀ i, i < r.baseBsk.size → (d.getD i #[]).size = r.n)
+    (hpq : r.prodQModBsk.size = r.baseBsk.size) (hinvs : r.baseBsk.size ≤ r.invMtModBsk.size)
+    (hsn : (r.baseBsk.size + 1) * r.n < 2^64) (hs64 : r.baseBsk.size + 1 < 2^64)
+    (hmt : r.mTilde.WF) (hneg : WFOp r.mTilde r.negInvProdQModMt)
+    (hb : ∀ i, i < r.baseBsk.size → (r.baseBsk.q i).WF ∧ r.mTilde.value ≤ (r.baseBsk.q i).value ∧
+      r.prodQModBsk.getD i 0 < (r.baseBsk.q i).value ∧ WFOp (r.baseBsk.q i) (r.invMtModBsk.getD i default))
+    (hc : ∀ i j, i ≤ r.baseBsk.size → j < r.n → (p.getD i #[]).getD j 0 < 2^64)
+    (hq : ∀ i, i < r.baseBsk.size → ((r.prodQModBsk.getD i 0 : Nat) : Int) ≡ q [ZMOD (r.baseBsk.q i).value])
+    (hinv : ∀ i, i < r.baseBsk.size → ((r.invMtModBsk.getD i default).operand * r.mTilde.value) % (r.baseBsk.q i).value = 1)
+    (hnq : (r.negInvProdQModMt.operand * q + 1) % r.mTilde.value = 0)
+    (hY : ∀ i j, i < r.baseBsk.size → j < r.n → (((p.getD i #[]).getD j 0 : Nat) : Int) ≡ Y j [ZMOD (r.baseBsk.q i).value])
+    (hYm : ∀ j, j < r.n → (((p.getD r.baseBsk.size #[]).getD j 0 : Nat) : Int) ≡ Y j [ZMOD r.mTilde.value]) :
+    ∃ out, GenR.sm_mrq (flatP p) (flatP d) r.baseBsk.size r.baseBsk.base.toList r.n r.mTilde r.negInvProdQModMt r.prodQModBsk.toList r.invMtModBsk.toList
+        = .ok out ∧
+      ∀ i j, i < r.baseBsk.size → j < r.n →
+        let rm := ((p.getD r.baseBsk.size #[]).getD j 0 * r.negInvProdQModMt.operand) % r.mTilde.value
+        let rmc : Int := if rm ≥ r.mTilde.value / 2 then (rm : Int) - r.mTilde.value else rm
+        (r.mTilde.value : Int) ∣ Y j + q * rmc ∧
+        ((out.getD (i * r.n + j) 0 : Nat) : Int) = ((Y j + q * rmc) / r.mTilde.value) % (r.baseBsk.q i).value := by
+  have hpqw : ∀ x ∈ r.prodQModBsk, x < 2^64 := by
+    apply mem_lt_of_getD
+    intro i hi
+    rw [hpq] at hi
+    have := (hb i hi).2.2.1
+    have := (hb i hi).1.lt
+    omega
+  obtain ⟨out, hok, hv⟩ := smMrq_spec hmt hneg hb (hp2 _ (by omega)) hc
+  obtain ⟨ho1, ho2⟩ := gr_sm_shape hok (hp2 _ (by omega))
+  obtain ⟨hos, hon⟩ := gr_shape_cs' ho1 ho2
+  rw [gr_sm_mrq_eq r p d hp1 hp2 hd1 hd2 hpq hpqw hinvs hsn hs64, hok]
+  refine ⟨flatP out, rfl, fun i j hi hj => ?_⟩
+  have hget : (flatP out).getD (i * r.n + j) 0 = (out.getD i #[]).getD j 0 := by
+    unfold flatP
+    rw [gr_flat_getD r.n _ i j hon (by omega) hj, gr_cs_getD, ← gr_arr_getD]
+  rw [hget, hv i j hi hj]
+  obtain ⟨h1, h2, -⟩ := smMrq_scalar (hb i hi).2.1 (hq i hi) (hinv i hi) hnq (hY i j hi hj) (hYm j hj)
+  exact ⟨h1, h2⟩
+
 end HC
